@@ -88,13 +88,13 @@ def check_line(ctx, case):
     tree, cfgk = case["tree"], case["config"]
     rec = Recorder()
     try:
-        app = gen_tree.build_app(tree, cfgk, rec.handler_for)
+        app = gen_tree.build_app(tree, cfgk, rec.handler_for, late=case.get("late"))
     except Exception as e:
         raise AssertionError("generator built an illegal tree: %r %r" % (e, tree))
-    classes = ["c03:" + case["kind"]] + ["c03:" + c for c in case.get("classes", [])]
+    classes = ["c03:" + case["kind"]] + ["c03:" + c for c in case.get("classes", [])] + (["c03:late-added"] if case.get("late") else [])
     nt = case.get("depth", 0) >= 2 or "alias" in case.get("classes", []) or case.get("default_involved") \
         or case["kind"] in ("wrong-token", "unnameable")
-    ctx.case("line", {"tree": tree, "config": cfgk, "tokens": case["tokens"]}, nt, classes)
+    ctx.case("line", {"tree": tree, "config": cfgk, "tokens": case["tokens"], "late": case.get("late")}, nt, classes)
     results = []
     wants = {}
     for label, tokens in [("line", case["tokens"])] + [(k, v) for k, v in sorted(case.get("variants", {}).items())]:
@@ -185,7 +185,14 @@ def check_line(ctx, case):
 def line_case(draw, descriptions=False):
     cfgk = draw(st.sampled_from(["bare", "bare", "default"]))
     tree = draw(gen_tree.tree_st(collide=True))
-    return draw(line_for(tree, cfgk))
+    case = draw(line_for(tree, cfgk))
+    cands = gen_tree.late_candidates(tree)
+    if cands and draw(st.integers(0, 3)) == 0:
+        # one command is added to the running application after other command lines were resolved; prefer one
+        # that lies on the path of this line
+        on_path = [p for p in cands if case.get("intended") and p == list(case["intended"])[: len(p)]]
+        case["late"] = draw(st.sampled_from(on_path or cands))
+    return case
 
 
 @st.composite
